@@ -558,7 +558,14 @@ class ValidateTool(BaseTool):
             # #183: STRICT mode uses strict validation (reject unknown fields)
             strict_mode = profile == "STRICT"
             validator = Validator(schema=schema_def)
-            validation_errors = validator.validate(doc, strict=strict_mode, section_schemas=section_schemas)
+            validation_findings = validator.validate(doc, strict=strict_mode, section_schemas=section_schemas)
+            # Findings with severity="warning" (UNKNOWN_FIELDS::WARN) are reported, never blocking
+            validation_errors = [err for err in validation_findings if err.severity != "warning"]
+            result["warnings"].extend(
+                {"code": err.code, "message": err.message, "field": err.field_path}
+                for err in validation_findings
+                if err.severity == "warning"
+            )
 
             if validation_errors:
                 # Convert errors to dicts for reporting
